@@ -489,9 +489,9 @@ Definition spec_decompress (c : case) (o : obs) : list Z :=
 Definition spec_case (c : case) (oc od : obs) : list Z :=
   (if k_comp c then spec_compress c oc else []) ++ (if k_dec c then spec_decompress c od else []).
 
-(* one line per generated case: the model's observations and the verdict of the property on the
-   implementation's observations *)
+(* one line per generated case: the model's observations, the verdict of the property on the
+   implementation's observations, and its verdict on the model's own observations *)
 Definition eval_case (tbl : list string) (c : case) (ic id : obs)
-  : list Z * option bytes * list Z * option bytes * list Z :=
+  : list Z * option bytes * list Z * option bytes * list Z * list Z :=
   let '(oc, od, _) := run_case tbl c in
-  (fst oc, snd oc, fst od, snd od, spec_case c ic id).
+  (fst oc, snd oc, fst od, snd od, spec_case c ic id, spec_case c oc od).
